@@ -244,23 +244,26 @@ class Conc:
 
 # ---- jobs ----------------------------------------------------------------------------------------------------------
 class Job:
-    __slots__ = ("kind", "entries", "state", "conc", "key", "nprobe")
+    __slots__ = ("kind", "entries", "state", "conc", "key", "nprobe", "free")
 
     def __init__(self, kind, entries, state, conc, key, nprobe=0):
         self.kind, self.entries, self.state, self.conc, self.key, self.nprobe = kind, entries, state, conc, key, nprobe
+        self.free = []      # (cif, command) pairs executed after the state comparison: calls whose outcome the specification leaves open
 
     def cmds(self):
         cs = [self.conc.cmd(e) for e in self.entries]
         for c in self.state["cifs"]:
             cs.append({"op": "project", "cif": c})
+        for c, cmd in self.free:
+            cs += [{"op": "project", "cif": c}, cmd, {"op": "project", "cif": c}]
         cs.append({"op": "reset"})
         return cs
 
     def check(self, outs):
         """returns list of (level, text)"""
         d = []
-        if len(outs) < 1 + len(self.entries) + len(self.state["cifs"]):
-            return [(2, "execution stopped after %d of %d commands" % (len(outs), 1 + len(self.entries) + len(self.state["cifs"])))]
+        if len(outs) < 1 + len(self.entries) + len(self.state["cifs"]) + 3 * len(self.free):
+            return [(2, "execution stopped after %d of %d commands" % (len(outs), 1 + len(self.entries) + len(self.state["cifs"]) + 3 * len(self.free)))]
         if outs[-1].get("leak"):
             d.append((2, "memory leaked by this history (LeakSanitizer)"))
         for i, e in enumerate(self.entries):
@@ -276,6 +279,15 @@ class Job:
                 d.append((2, "no projection for %s: %s" % (c, json.dumps(o)[:200])))
                 return d
             projs[c] = o["state"]
+        # calls the specification leaves open (container-level calls inside an iterator's transaction): whatever they do,
+        # one that reports a failure must not have changed the CIF (C05)
+        base = len(self.entries) + len(self.state["cifs"])
+        for j, (c, cmd) in enumerate(self.free):
+            before, o, after = outs[base + 3 * j: base + 3 * j + 3]
+            if "err" in o or "state" not in before or "state" not in after:
+                continue
+            if o.get("rc", 0) != 0 and before["state"] != after["state"]:
+                d.append((2, "open call %s inside an iterator's transaction: returned %s and changed the CIF" % (cmd["op"], o.get("rc"))))
         m1, i1 = self.conc.canon_model(self.state, 1), self.conc.canon_impl(projs, 1)
         if m1 != i1:
             m2, i2 = self.conc.canon_model(self.state, 2), self.conc.canon_impl(projs, 2)
